@@ -175,6 +175,7 @@ class Interp:
         self.steps = 0
         self.trace = trace
         self.stmt_hook = stmt_hook
+        self.after_call = None
         self.call_stack = []
         self._modglobals = {}
 
@@ -830,7 +831,10 @@ class Interp:
         if self.trace is not None:
             self.trace(self, e, f, args, kwargs)
         try:
-            return self.call(f, args, kwargs, e)
+            r = self.call(f, args, kwargs, e)
+            if self.after_call is not None:
+                self.after_call(self, e, f, args, kwargs, r)
+            return r
         except ModelError as me:
             if not getattr(me, "where", None):
                 me.where = self.where(e)
